@@ -198,4 +198,44 @@ CLAIMS["C17"] = {
     "note": "Bodies of wrapped functions are client code: what they publish explicitly is allowed by the API.",
 }
 
+CLAIMS["C02"] = {
+    "technique": "def-use of allocated witnesses into constraint-emitting calls, truth tables of the polynomials behind "
+                 "unconstrained Boolean constructions, polynomial relation + receiver/argument identity of each gadget's "
+                 "constraints and range checks (must-be-present obligations)",
+    "text": "Decides three necessary structural clauses of soundness: no operation returns or drops a fresh witness that no "
+            "constraint mentions; every LinCombBool(e, False) wraps a polynomial over Boolean operands whose truth table stays "
+            "in {0,1}; each gadget carries its full set of obligations with the right operands - q*d = x - r with r < d and "
+            "r >= 0 on the remainder, both zero-test constraints, the sign-test product constraint over Boolean bits, "
+            "decompose/per-bit-truth-table/recompose for the bitwise operators, Boolean-typed condition and f + c(t-f) for "
+            "selection, constrained bits + recomposition in to_bits, one-hot sum == 1 for secret indices. Replacing one range "
+            "check by another of equal cost (same constraint count, tests still green) is caught.",
+    "note": "Uniqueness over ALL witness completions is algebra over the solution set (solver family) and is NOT claimed: e.g. "
+            "the unconstrained quotient range of __divmod__ is out of reach of these rules. The int-operand bitwise operators "
+            "return unconstrained witnesses: three known findings (test_bench pins 0 constraints).",
+}
+CLAIMS["C14"] = {
+    "technique": "units (scale-exponent) abstract interpretation of every LinCombFxp method per operand-kind combination; "
+                 "operator-dispatch model for deference and reflected operators",
+    "text": "Decides the scaling discipline the mechanism list names: every LinCombFxp(x, False) receives a quantity scaled "
+            "by exactly 2^r, every scaling constructor an unscaled one; sums, comparisons and assertions relate equally "
+            "scaled quantities; products are rescaled by // 2^r, quotients pre-scaled by * 2^r, divmod yields (unscaled "
+            "quotient, scaled remainder); add_scaling adds and remove_scaling removes exactly one factor; conversions "
+            "allocate at scale 1; reflected operators lift the left operand and call the forward method in the right order; "
+            "LinComb operators return NotImplemented for a fixed-point right operand.",
+    "note": "Numeric agreement (rounding direction, negatives) is a value property and is not decided; the int-vs-fixed-point "
+            "strict comparison defect named in the property has no structural signature (the literal 1 is scaled consistently) "
+            "and is not found by these rules.",
+}
+CLAIMS["C15"] = {
+    "technique": "shape + canonical affine relation checks of the two secret-index paths, index-agreement check of inner "
+                 "product / per-position selection, row-view protocol check, C06 non-interference analysis over array.py",
+    "text": "Decides that both secret-index paths build the selector [item == ix] over range(len(arr)) and assert its sum to be "
+            "1, that the run-time bounds check accepts exactly 0 <= i < len, raises IndexError, precedes the selector and is "
+            "suppressible only by ignore_errors(), that a read is lin_comb(selector, arr) with coefficient i on value i, that "
+            "a write stores if_then_else(selector[ix], new, old[ix]) at position ix for every ix, that secret-index row reads "
+            "are read-only views and multi-dimensional writes copy/write/store back, and that array access emits the same "
+            "constraints for every index value.",
+    "note": "Value agreement with Python lists over all contents and histories is not decided.",
+}
+
 NOT_APPLICABLE = {}
